@@ -1,8 +1,235 @@
-from .base import Check
+"""C09 -- malformed input gives an error Status, never undefined behaviour.
+
+fault_enumeration: every single storage fault of a fixed enumeration over a
+menu of small stored objects (SimStore), every single-byte EOF / error / bit
+flip on OBJ text (SimStreambuf), plus seeded multi-fault samples; each imported
+object is driven through a consuming program. Runs under ASan+UBSan; a
+sanitizer report, crash, hang or escaped exception is a violation."""
+import random, re
+import simdrv
+from .base import Check, key_str
+
+CHUNK = 48
+NMENU = 9
 
 
-class Stub(Check):
+def crash_key(r):
+    cls = simdrv.classify_crash(r)
+    key = {"clause": "crash_" + cls}
+    if cls in ("asan", "ubsan") or cls.startswith("signal"):
+        key["site"] = simdrv.asan_site(r.get("stderr", ""))
+    return key
+
+
+class C09(Check):
     prop = "C09"
+    level = "fault_enumeration"
+    flavours = ["ser-asan", "par-asan"]
+    assumptions = [
+        "faults are applied to the serialised form held outside the library (MeshGL64/MeshGL arrays, OBJ text); numeric "
+        "arguments of constructors and operations are not enumerated here",
+        "a hang is decided by a wall-clock watchdog in the driver (20 s per range of 48 faults, 10 s per single fault)",
+        "ASan+UBSan (without the null/alignment/vptr checks) are the out-of-bounds / overflow oracle",
+    ]
+
+    def locate(self, job, budget=40, first_only=False):
+        """A range job crashed or hung: bisect to single faults. Returns list of (single job, result)."""
+        a = job["args"]
+        lo, hi = a["from"], a["to"]
+        found = []
+        stack = [(lo, hi)]
+        while stack and budget > 0 and self.time_left() > -120:
+            if first_only and found:
+                break
+            l, h = stack.pop()
+            j = {"flavour": job["flavour"], "kind": job["kind"], "args": dict(a, **{"from": l, "to": h}), "timeout": 4 if h - l == 1 else 8}
+            r = self.pool.run_one(j)
+            budget -= 1
+            if r["ok"]:
+                self.absorb(j, r)
+                continue
+            if h - l == 1:
+                found.append((j, r))
+                continue
+            m = (l + h) // 2
+            stack.append((m, h))
+            stack.append((l, m))
+        return found
+
+    def absorb(self, j, r):
+        x = r["res"]
+        st = self.stats
+        self.cov["evaluations"] += x["tested"]
+        st["faults_tested"] += x["tested"]
+        st["usable_imports"] += x["usable"]
+        st["rejected_imports"] += x["rejected"]
+        for k, v in x.get("fired", {}).items():
+            self.fired[k] = self.fired.get(k, 0) + v
+        for k, v in x.get("statuses", {}).items():
+            self.statuses[k] = self.statuses.get(k, 0) + v
+        if j["kind"] == "c09obj":
+            self.fired["obj_" + j["args"]["kind"]] = self.fired.get("obj_" + j["args"]["kind"], 0) + x["tested"]
+            st["short_reads"] += x.get("short_reads", 0)
+            st["eof_fired"] += x.get("eof_fired", 0)
+            st["err_fired"] += x.get("err_fired", 0)
+        self.cov["distinct_nontrivial"] += x["rejected"] + (x["usable"] if j["kind"] == "c09" else 0)
+        for v in x["viol"]:
+            clause = v["clause"]
+            parts = clause.split(":")
+            key = {"clause": parts[0]}
+            if parts[0] in ("error_lost_by", "error_changed_by", "error_result_not_empty") and len(parts) > 1:
+                key["op"] = parts[1]
+            elif len(parts) > 1:
+                key["detail"] = parts[-1].split("(")[0]
+            args = dict(j["args"])
+            if j["kind"] == "c09":
+                args.pop("from", None)
+                args.pop("to", None)
+                args["faults"] = v["faults"]
+            desc = "%s obj=%s faults=[%s] -> status %s: %s" % (j["kind"], j["args"].get("obj"), v["faults"], v["status"], clause)
+            self.add_finding(key, desc, {"property": "C09", "kind": j["kind"], "flavour": j["flavour"], "args": args})
+
+    def explore(self):
+        rng = random.Random(self.seed * 31337 + 9)
+        quick = self.tier == "quick"
+        self.stats = {"faults_tested": 0, "usable_imports": 0, "rejected_imports": 0, "range_jobs": 0, "crashed_ranges": 0,
+                      "short_reads": 0, "eof_fired": 0, "err_fired": 0, "multi_fault_cases": 0, "objects": 0}
+        self.fired, self.statuses = {}, {}
+        counts = {}
+        res = self.pool.run_all([{"flavour": "ser-asan", "kind": "c09count", "args": {"obj": o}, "timeout": 60} for o in range(NMENU)])
+        for o, r in enumerate(res):
+            if r["ok"]:
+                counts[o] = (r["res"]["faults"], r["res"]["obj_bytes"])
+        self.stats["objects"] = len(counts)
+        jobs = []
+        # quick: a rotating third of the enumeration per object (by seed); thorough: all
+        for o, (nf, nbytes) in counts.items():
+            stale = (o + 1) % NMENU
+            for prec in (64, 32):
+                starts = list(range(0, nf, CHUNK))
+                if prec == 32:
+                    starts = [s for i, s in enumerate(starts) if (i + self.seed) % (4 if quick else 2) == 0]
+                elif quick:
+                    starts = [s for i, s in enumerate(starts) if (i + self.seed + o) % 2 == 0 or o < 2]
+                for s in starts:
+                    fl = "par-asan" if (s // CHUNK) % 5 == 4 else "ser-asan"
+                    a = {"obj": o, "stale": stale, "from": s, "to": min(nf, s + CHUNK), "precision": prec}
+                    if fl == "par-asan":
+                        a.update({"W": 2, "thr": 64, "seed": rng.randrange(1, 1 << 30)})
+                    jobs.append({"flavour": fl, "kind": "c09", "args": a, "timeout": 8})
+            # OBJ stream faults (small objects: all bytes; larger: strided windows)
+            if nbytes <= 2200 or not quick:
+                for kind in ("eof", "error", "flip"):
+                    step = 64 if kind != "flip" else 32
+                    for s in range(0, nbytes + 1, step):
+                        if quick and nbytes > 900 and (s // step) % 3 != self.seed % 3:
+                            continue
+                        jobs.append({"flavour": "ser-asan", "kind": "c09obj", "args": {"obj": o, "kind": kind, "from": s,
+                                                                                         "to": min(nbytes + 1, s + step)}, "timeout": 8})
+            for kind in ("short", "crlf", "plain"):
+                jobs.append({"flavour": "ser-asan", "kind": "c09obj", "args": {"obj": o, "kind": kind, "ioseed": rng.randrange(1 << 30),
+                                                                                 "shortw": 1}, "timeout": 8})
+        for t in range(7):
+            for kind in ("plain", "eof"):
+                jobs.append({"flavour": "ser-asan", "kind": "c09obj", "args": {"obj": 0, "kind": kind, "text": t}, "timeout": 8})
+        # multi-fault samples
+        kinds = ["flip", "truncate", "tear", "lose", "dup", "mix", "nan", "inf", "neg", "huge", "setidx", "numprop", "tol", "truncbytes"]
+        for _ in range(300 if quick else 3000):
+            o = rng.randrange(NMENU)
+            fl = []
+            for _ in range(rng.randint(2, 4)):
+                fl.append("%s:%d,%d,%d,0" % (rng.choice(kinds), rng.randrange(10), rng.randrange(100000), rng.randrange(64)))
+            jobs.append({"flavour": rng.choice(["ser-asan", "ser-asan", "par-asan"]), "kind": "c09",
+                         "args": {"obj": o, "stale": rng.randrange(NMENU), "faults": ";".join(fl), "precision": rng.choice([64, 64, 32]),
+                                  "W": 2, "thr": 64, "seed": rng.randrange(1, 1 << 30)}, "timeout": 8, "multi": True})
+        rng.shuffle(jobs)
+        results = self.pool.run_all(jobs, deadline=self.deadline)
+        samples = []
+        ngroup = {}
+        for j, r in zip(jobs, results):
+            if r.get("skipped"):
+                self.stats.setdefault("skipped_jobs", 0)
+                self.stats["skipped_jobs"] += 1
+                continue
+            self.stats["range_jobs"] += 1
+            if j.get("multi"):
+                self.stats["multi_fault_cases"] += 1
+            if r["ok"]:
+                self.absorb(j, r)
+                if len(samples) < 5 and r["res"]["tested"] > 0 and rng.random() < 0.02:
+                    samples.append({"kind": j["kind"], "args": j["args"], "tested": r["res"]["tested"], "rejected": r["res"]["rejected"],
+                                    "usable": r["res"]["usable"]})
+                continue
+            self.stats["crashed_ranges"] += 1
+            group = (j["kind"], j["args"].get("kind", ""), "timeout" if r.get("timeout") else "crash")
+            ngroup[group] = ngroup.get(group, 0) + 1
+            if "from" in j["args"] and j["args"].get("to", 0) - j["args"].get("from", 0) > 1 and "faults" not in j["args"]:
+                if r.get("timeout"):
+                    # hangs are expensive to bisect: locate the first two ranges of a group, count the others
+                    if ngroup[group] > 2:
+                        k0 = crash_key(r)
+                        self.finding_counts[key_str(k0)] = self.finding_counts.get(key_str(k0), 0) + 1
+                        continue
+                    singles = self.locate(j, budget=10, first_only=True)
+                else:
+                    singles = self.locate(j, budget=30 if ngroup[group] < 40 else 8, first_only=ngroup[group] >= 40)
+            else:
+                singles = [(j, r)]
+            for sj, sr in singles:
+                key = crash_key(sr)
+                desc = "%s obj=%s args=%s: %s" % (sj["kind"], sj["args"].get("obj"), simdrv.fmt_args(sj["args"]),
+                                                  simdrv.crash_summary(sr))
+                self.add_finding(key, desc, {"property": "C09", "kind": sj["kind"], "flavour": sj["flavour"], "args": sj["args"]})
+                self.cov["evaluations"] += 1
+                self.cov["distinct_nontrivial"] += 1
+        self.cov.update({
+            "rule": "one evaluation = one stored object with one fault list applied, imported and driven through the consuming "
+                    "program (27 operations + queries); every enumerated fault is distinct by construction; non-trivial = the "
+                    "fault actually changed the stored bytes (not_applied cases are excluded) and the import returned",
+            "samples": samples or [{"note": "see fault_kinds_fired"}],
+            "fault_kinds_fired": self.fired, "import_statuses": self.statuses, "totals": self.stats,
+            "enumeration": {str(o): {"single_faults": c[0], "obj_text_bytes": c[1]} for o, c in counts.items()},
+            "exhaustive": False,
+            "components": {"real": "manifold library (MeshGL/MeshGL64 ingest, ReadOBJ/WriteOBJ, all consuming operations)",
+                           "stub": "storage between export and import (SimStore byte images, SimStreambuf); oneTBB runtime in par-asan"},
+        })
+
+    def reproduce(self, replay, fresh=False):
+        r = self.run_job({"flavour": replay["flavour"], "kind": replay["kind"], "args": replay["args"], "timeout": 20}, fresh)
+        exp = replay.get("expect")
+        if not r["ok"]:
+            return crash_key(r), "crash"
+        keys = []
+        for v in r["res"]["viol"]:
+            parts = v["clause"].split(":")
+            key = {"clause": parts[0]}
+            if parts[0] in ("error_lost_by", "error_changed_by", "error_result_not_empty") and len(parts) > 1:
+                key["op"] = parts[1]
+            elif len(parts) > 1:
+                key["detail"] = parts[-1].split("(")[0]
+            keys.append(key)
+        for k in keys:
+            if exp is None or key_str(k) == key_str(exp):
+                return k, r["res"]["sim"]["hash"]
+        return (keys[0] if keys else None), r["res"]["sim"]["hash"]
+
+    def minimise(self, finding):
+        rep = {k: (dict(v) if isinstance(v, dict) else v) for k, v in finding["replay"].items()}
+        a = rep["args"]
+        if "faults" not in a or ";" not in a["faults"]:
+            return finding
+        want = key_str(finding["key"])
+        rep["expect"] = finding["key"]
+        fl = a["faults"].split(";")
+
+        def test(sub):
+            k, _ = self.reproduce(dict(rep, args=dict(a, faults=";".join(sub))))
+            return k is not None and key_str(k) == want
+
+        fl2, _ = simdrv.ddmin(fl, test, budget=12)
+        if test(fl2):
+            rep["args"] = dict(a, faults=";".join(fl2))
+        return {"key": finding["key"], "desc": finding["desc"] + " [minimised faults: %s]" % rep["args"]["faults"], "replay": rep}
 
 
-CHECK = Stub()
+CHECK = C09()
